@@ -22,17 +22,17 @@ pkgs=$(echo $pkgs | tr ' ' '\n' | sort -u | tr '\n' ' ')
 run="$(echo $tests | tr -d ' ' | sed 's/|$//')"
 [ -n "$run" ] || { echo "[confirm] no demo test found"; exit 2; }
 echo "[confirm] demo: go test -run '^($run)\$' $pkgs"
-go test -count=1 -timeout 5m -run "^($run)\$" $pkgs > /tmp/confirm.clean.txt 2>&1; rc_clean=$?
+go test -count=1 -timeout 5m -run "^($run)\$" $pkgs > /tmp/confirm.$id.$m.clean.txt 2>&1; rc_clean=$?
 git apply "$out/patch.diff"
 go build ./... || { echo "[confirm] does not build"; git checkout -q -- .; git clean -fdq; exit 2; }
-go test -count=1 -timeout 5m -run "^($run)\$" $pkgs > /tmp/confirm.mut.txt 2>&1; rc_mut=$?
+go test -count=1 -timeout 5m -run "^($run)\$" $pkgs > /tmp/confirm.$id.$m.mut.txt 2>&1; rc_mut=$?
 # existing suite with the change (demo files removed)
 for f in $(find "$out/demo" -type f); do p=$(head -1 "$f" | sed -n 's#^// *path: *##p'); [ -n "$p" ] && rm -f "$p"; done
-go test -vet=off -count=1 -timeout 8m -p 6 ./... > /tmp/confirm.suite.txt 2>&1; rc_suite=$?
+go test -vet=off -count=1 -timeout 8m -p 6 ./... > /tmp/confirm.$id.$m.suite.txt 2>&1; rc_suite=$?
 if [ $rc_suite -ne 0 ]; then
-  failed=$(grep '^FAIL' /tmp/confirm.suite.txt | awk '{print $2}' | grep -v '^$' | sort -u | tr '\n' ' ')
+  failed=$(grep '^FAIL' /tmp/confirm.$id.$m.suite.txt | awk '{print $2}' | grep -v '^$' | sort -u | tr '\n' ' ')
   echo "[confirm] suite failed in: $failed - re-running those packages"
-  go test -vet=off -count=1 -timeout 8m -p 2 $failed > /tmp/confirm.suite2.txt 2>&1; rc_suite=$?
+  go test -vet=off -count=1 -timeout 8m -p 2 $failed > /tmp/confirm.$id.$m.suite2.txt 2>&1; rc_suite=$?
 fi
 git checkout -q -- . ; git clean -fdq
 echo "[confirm] $id $m: demo clean rc=$rc_clean (want 0), demo with change rc=$rc_mut (want !=0), suite with change rc=$rc_suite (want 0)"
@@ -42,5 +42,5 @@ if [ $rc_clean -eq 0 ] && [ $rc_mut -ne 0 ] && [ $rc_suite -eq 0 ]; then
   echo "confirmed" > $d/.confirmed
   echo "[confirm] kept in $d"
 else
-  tail -5 /tmp/confirm.clean.txt; tail -5 /tmp/confirm.mut.txt; grep -E '^(FAIL|---)' /tmp/confirm.suite.txt | head
+  tail -5 /tmp/confirm.$id.$m.clean.txt; tail -5 /tmp/confirm.$id.$m.mut.txt; grep -E '^(FAIL|---)' /tmp/confirm.$id.$m.suite.txt | head
 fi
